@@ -173,7 +173,7 @@ func ParseNDStream(r io.Reader, res chan<- Stream, reuse <-chan *ParsedJson) {
 				err = err2
 			}
 
-			if len(tmp) > 0 {
+			if len(bytes.TrimSpace(tmp)) > 0 {
 				result := make(chan Stream, 0)
 				verifEvent(verifEvChunkQueued, nil, verifAddr(tmp), uint64(len(tmp)), nil)
 				queue <- result
